@@ -13,7 +13,9 @@ from typing import Any, Callable, Dict, List, Optional, Tuple
 
 import z3
 
-SOLVER_TIMEOUT_MS = 10000
+import os as _os0
+
+SOLVER_TIMEOUT_MS = int(_os0.environ.get('PYVC_SOLVER_TIMEOUT_MS', '10000'))
 
 
 class PathEnd(Exception):
@@ -118,8 +120,19 @@ class Ctx:
 
     def check(self, *extra) -> z3.CheckSatResult:
         t0 = time.perf_counter()
+        import os as _os1
+
+        if _os1.environ.get("PYVC_DUMP_LAST"):
+            with open(_os1.environ["PYVC_DUMP_LAST"], "w") as f:
+                f.write(f"; extra={extra}\n{self.solver.to_smt2()}\n")
         r = self.solver.check(*extra)
-        self.solver_ms += (time.perf_counter() - t0) * 1000
+        dt = (time.perf_counter() - t0) * 1000
+        self.solver_ms += dt
+        import os as _os
+
+        if dt > 1500 and _os.environ.get("PYVC_DUMP_SLOW"):
+            with open(_os.environ["PYVC_DUMP_SLOW"], "a") as f:
+                f.write(f"; ---- slow check {dt:.0f} ms result {r} extra={extra}\n{self.solver.to_smt2()}\n")
         return r
 
     def assume(self, cond, why: str = "") -> None:
@@ -257,20 +270,44 @@ class UnitResult:
     covers: Dict[str, bool] = field(default_factory=dict)
     assumptions: List[str] = field(default_factory=list)
     functions: List[Dict[str, Any]] = field(default_factory=list)
+    pending: List[List[int]] = field(default_factory=list)
+
+    def merge(self, other: "UnitResult") -> None:
+        self.paths += other.paths
+        self.cut_paths += other.cut_paths
+        self.obligations.extend(other.obligations)
+        self.undecided.extend(other.undecided)
+        self.errors.extend(other.errors)
+        self.solver_ms += other.solver_ms
+        for k, v in other.covers.items():
+            self.covers[k] = self.covers.get(k, False) or v
+        self.assumptions = sorted(set(self.assumptions) | set(other.assumptions))
 
 
 MAX_PATHS = 4000
 
 
-def explore(unit: str, run: Callable[[Ctx], None], region=None) -> UnitResult:
-    """run `run(ctx)` once per path until every decision vector is explored"""
+def explore(unit: str, run: Callable[[Ctx], None], region=None, work=None, split_after: Optional[int] = None) -> UnitResult:
+    """run `run(ctx)` once per path until every decision vector is explored.  With `split_after`
+    the exploration stops after that many paths and leaves the unexplored decision prefixes in
+    res.pending (they are farmed out to other processes)."""
     import traceback
 
     res = UnitResult(unit=unit)
     t0 = time.perf_counter()
-    work: List[List[int]] = [[]]
+    work = [list(w) for w in work] if work is not None else [[]]
     assumptions: set = set()
+    import os as _os
+
+    budget = float(_os.environ.get("PYVC_UNIT_BUDGET", "240"))
+    trace = _os.environ.get("PYVC_TRACE")
     while work:
+        if time.perf_counter() - t0 > budget:
+            res.undecided.append(f"{unit}: exploration exceeded {budget:.0f} s after {res.paths + res.cut_paths} paths")
+            break
+        if split_after is not None and res.paths + res.cut_paths >= split_after and len(work) >= 2:
+            res.pending = work
+            break
         prefix = work.pop()
         ctx = Ctx(prefix, unit)
         ctx.known_region = region
@@ -287,6 +324,8 @@ def explore(unit: str, run: Callable[[Ctx], None], region=None) -> UnitResult:
             res.errors.append(f"{unit}: recursion error {e}")
         except Exception as e:  # engine bug: checker failure, never a violation
             res.errors.append(f"{unit}: engine error: {e!r}\n{traceback.format_exc()}")
+        if trace:
+            print(f"[path {res.paths + res.cut_paths} {time.perf_counter() - t0:.1f}s solver {ctx.solver_ms:.0f}ms] {' '.join(ctx.labels)[-300:]}", flush=True)
         res.obligations.extend(ctx.obligations)
         res.solver_ms += ctx.solver_ms
         for k, v in ctx.covers.items():
